@@ -537,6 +537,25 @@ def reconnect (rpc : Rpc) (removeOk : Bool) (db : DB) : DB × List Call × Optio
   let r := checkPendingBatch (pendingBatchSnapshot db) rpc { removeOk := removeOk, deleteOk := true }
   if r.1.contains .deletePendingBatch then ((commit db (deletePendingBatchTx db)).1, r) else (db, r)
 
+/-- the three ways the stream to the auctioneer is (re-)created -/
+inductive Path where
+  | firstConnect     -- daemon start: `connectAndAuthenticate` with `serverStream == nil`
+  | streamError      -- stream error → `rpcServer.serverHandler` → `HandleServerShutdown(err)`
+  | shutdownNotice   -- SERVER_SHUTDOWN message → `readIncomingStream` → `HandleServerShutdown(nil)`
+deriving DecidableEq, Repr
+
+/-- A whole (re-)connection along `p`.  Every function that creates the stream runs `checkPendingBatch` right
+after `connectServerStream` and before (re-)subscribing accounts (`Gen.C06.streamCreators`).  The two in-process
+reconnect paths presuppose an earlier first connect, whose check the scripted auctioneer answers with "not
+finalised".  Result: the database and the outcome of each check, in order. -/
+def reconnectVia (p : Path) (rpc : Rpc) (removeOk : Bool) (db : DB) : DB × List (List Call × Option CheckErr) :=
+  match p with
+  | .firstConnect => let r := reconnect rpc removeOk db; (r.1, [r.2])
+  | _ =>
+    let r0 := reconnect (.rpcErr true) true db
+    let r := reconnect rpc removeOk r0.1
+    (r.1, [r0.2, r.2])
+
 /-! ### operations -/
 
 inductive Op where
